@@ -28,6 +28,16 @@ Proof. exact only_owner. Qed.
 Theorem unknown_token_is_lost : forall st w c, resolve st w c None = (st, [], None).
 Proof. exact resolve_none. Qed.
 
+(* Concurrent resumes of an expired session (the stress cases are ordinary
+   programs -- opener, clock advance, N actors bearing the token, reaper,
+   shutdown -- run under arbitrary schedules): an expired or absent session
+   resolves for nobody, and by [close_exactly_once] above the eviction closes its
+   state once, for EVERY interleaving of the actors' critical sections. *)
+Theorem expired_session_is_lost : forall st w c tok,
+  (forall e, In e (ents st) -> e_sid e = k_sid tok -> (e_exp e < now st)%Z) ->
+  snd (resolve st w c (Some tok)) = None.
+Proof. exact expired_lost. Qed.
+
 (* 2. Mutual exclusion.  In every reachable state at most one thread (request
    inside its handler, or DELETE inside its critical section) holds a given
    session. *)
